@@ -284,6 +284,21 @@ func suspects(q query, first uint32, dict []string, tids []uint32) []string {
 	return out
 }
 
+// hintsFirst puts the queries on which the Go-side reference disagrees in front (readability of
+// replay files; the verdict itself comes from Coq)
+func hintsFirst(impl []any) any {
+	var bad []any
+	for _, e := range impl {
+		if m, ok := e.(map[string]any); ok && m["tokens_where_go_reference_disagrees"] != nil {
+			bad = append(bad, m)
+		}
+	}
+	if len(bad) == 0 {
+		return impl
+	}
+	return map[string]any{"suspect_queries": bad, "all_results": impl}
+}
+
 // ---------------------------------------------------------------- providers
 
 type memProvider struct {
@@ -406,7 +421,7 @@ func (d *driver) searchCase(class string, ordered bool, first uint32, dict []str
 	} else {
 		in["dict"] = dict
 	}
-	d.w.Add(term, class, nontriv, in, impl)
+	d.w.Add(term, class, nontriv, in, hintsFirst(impl))
 	d.w.Evals(len(qs)*len(dict) - 1)
 }
 
@@ -528,7 +543,7 @@ func (d *driver) sealedCase(class string, before []layoutBlock, entries [][]stri
 	}
 	term := fmt.Sprintf("CSealed (%d)%%Z %s [%s] [%s]", first, keysCoq(collectStrings(flat, qs)),
 		strings.Join(es, "; "), strings.Join(parts, "; "))
-	d.w.Add(term, class, nontriv && len(entries) > 1, in, impl)
+	d.w.Add(term, class, nontriv && len(entries) > 1, in, hintsFirst(impl))
 	d.w.Evals(len(qs)*len(flat) - 1)
 	d.w.Count(fmt.Sprintf("sealed:entries-%d", min(len(entries), 5)))
 }
